@@ -93,65 +93,38 @@ vpv_cell!(#[kani::stub(eval_filter_expr, stub_eval_filter_expr)] #[kani::stub(co
 vpv_cell!(#[kani::stub(eval_filter_expr, stub_eval_filter_expr)] #[kani::stub(collect_emitted_event, stub_collect_emitted_event)] #[kani::stub(call_user_function, stub_call_user_function)] #[kani::unwind(6)] c10_id_mul_zero_r_str, "C10/fold_binary/identity/x*0/x=str", (), { check_fold_binary(BinOp::Mul, Expr::Str(String::from("ab")), Expr::Int(0)) });
 vpv_cell!(#[kani::stub(eval_filter_expr, stub_eval_filter_expr)] #[kani::stub(collect_emitted_event, stub_collect_emitted_event)] #[kani::stub(call_user_function, stub_call_user_function)] c10_id_mul_zero_r_bool, "C10/fold_binary/identity/x*0/x=bool", (b: bool), { check_fold_binary(BinOp::Mul, Expr::Bool(b), Expr::Int(0)) });
 vpv_cell!(#[kani::stub(eval_filter_expr, stub_eval_filter_expr)] #[kani::stub(collect_emitted_event, stub_collect_emitted_event)] #[kani::stub(call_user_function, stub_call_user_function)] c10_id_mul_zero_r_null, "C10/fold_binary/identity/x*0/x=null", (), { check_fold_binary(BinOp::Mul, Expr::Null, Expr::Int(0)) });
-vpv_cell!(#[kani::stub(eval_filter_expr, stub_eval_filter_expr)] #[kani::stub(collect_emitted_event, stub_collect_emitted_event)] #[kani::stub(call_user_function, stub_call_user_function)] c10_id_mul_zero_r_novalue, "C10/fold_binary/identity/x*0/x=novalue", (), { check_fold_binary(BinOp::Mul, no_value(), Expr::Int(0)) });
 vpv_cell!(#[kani::stub(eval_filter_expr, stub_eval_filter_expr)] #[kani::stub(collect_emitted_event, stub_collect_emitted_event)] #[kani::stub(call_user_function, stub_call_user_function)] c10_id_mul_zero_l_float, "C10/fold_binary/identity/0*x/x=float", (f: f64), { check_fold_binary(BinOp::Mul, Expr::Int(0), Expr::Float(f)) });
 vpv_cell!(#[kani::stub(eval_filter_expr, stub_eval_filter_expr)] #[kani::stub(collect_emitted_event, stub_collect_emitted_event)] #[kani::stub(call_user_function, stub_call_user_function)] #[kani::unwind(6)] c10_id_mul_zero_l_str, "C10/fold_binary/identity/0*x/x=str", (), { check_fold_binary(BinOp::Mul, Expr::Int(0), Expr::Str(String::from("ab"))) });
 vpv_cell!(#[kani::stub(eval_filter_expr, stub_eval_filter_expr)] #[kani::stub(collect_emitted_event, stub_collect_emitted_event)] #[kani::stub(call_user_function, stub_call_user_function)] c10_id_mul_zero_l_bool, "C10/fold_binary/identity/0*x/x=bool", (b: bool), { check_fold_binary(BinOp::Mul, Expr::Int(0), Expr::Bool(b)) });
 vpv_cell!(#[kani::stub(eval_filter_expr, stub_eval_filter_expr)] #[kani::stub(collect_emitted_event, stub_collect_emitted_event)] #[kani::stub(call_user_function, stub_call_user_function)] c10_id_mul_zero_l_null, "C10/fold_binary/identity/0*x/x=null", (), { check_fold_binary(BinOp::Mul, Expr::Int(0), Expr::Null) });
-vpv_cell!(#[kani::stub(eval_filter_expr, stub_eval_filter_expr)] #[kani::stub(collect_emitted_event, stub_collect_emitted_event)] #[kani::stub(call_user_function, stub_call_user_function)] c10_id_mul_zero_l_novalue, "C10/fold_binary/identity/0*x/x=novalue", (), { check_fold_binary(BinOp::Mul, Expr::Int(0), no_value()) });
 vpv_cell!(#[kani::stub(eval_filter_expr, stub_eval_filter_expr)] #[kani::stub(collect_emitted_event, stub_collect_emitted_event)] #[kani::stub(call_user_function, stub_call_user_function)] c10_id_mul_one_r_float, "C10/fold_binary/identity/x*1/x=float", (f: f64), { check_fold_binary(BinOp::Mul, Expr::Float(f), Expr::Int(1)) });
 vpv_cell!(#[kani::stub(eval_filter_expr, stub_eval_filter_expr)] #[kani::stub(collect_emitted_event, stub_collect_emitted_event)] #[kani::stub(call_user_function, stub_call_user_function)] #[kani::unwind(6)] c10_id_mul_one_r_str, "C10/fold_binary/identity/x*1/x=str", (), { check_fold_binary(BinOp::Mul, Expr::Str(String::from("ab")), Expr::Int(1)) });
 vpv_cell!(#[kani::stub(eval_filter_expr, stub_eval_filter_expr)] #[kani::stub(collect_emitted_event, stub_collect_emitted_event)] #[kani::stub(call_user_function, stub_call_user_function)] c10_id_mul_one_r_bool, "C10/fold_binary/identity/x*1/x=bool", (b: bool), { check_fold_binary(BinOp::Mul, Expr::Bool(b), Expr::Int(1)) });
 vpv_cell!(#[kani::stub(eval_filter_expr, stub_eval_filter_expr)] #[kani::stub(collect_emitted_event, stub_collect_emitted_event)] #[kani::stub(call_user_function, stub_call_user_function)] c10_id_mul_one_r_null, "C10/fold_binary/identity/x*1/x=null", (), { check_fold_binary(BinOp::Mul, Expr::Null, Expr::Int(1)) });
-vpv_cell!(#[kani::stub(eval_filter_expr, stub_eval_filter_expr)] #[kani::stub(collect_emitted_event, stub_collect_emitted_event)] #[kani::stub(call_user_function, stub_call_user_function)] c10_id_mul_one_r_novalue, "C10/fold_binary/identity/x*1/x=novalue", (), { check_fold_binary(BinOp::Mul, no_value(), Expr::Int(1)) });
 vpv_cell!(#[kani::stub(eval_filter_expr, stub_eval_filter_expr)] #[kani::stub(collect_emitted_event, stub_collect_emitted_event)] #[kani::stub(call_user_function, stub_call_user_function)] c10_id_mul_one_l_float, "C10/fold_binary/identity/1*x/x=float", (f: f64), { check_fold_binary(BinOp::Mul, Expr::Int(1), Expr::Float(f)) });
 vpv_cell!(#[kani::stub(eval_filter_expr, stub_eval_filter_expr)] #[kani::stub(collect_emitted_event, stub_collect_emitted_event)] #[kani::stub(call_user_function, stub_call_user_function)] #[kani::unwind(6)] c10_id_mul_one_l_str, "C10/fold_binary/identity/1*x/x=str", (), { check_fold_binary(BinOp::Mul, Expr::Int(1), Expr::Str(String::from("ab"))) });
 vpv_cell!(#[kani::stub(eval_filter_expr, stub_eval_filter_expr)] #[kani::stub(collect_emitted_event, stub_collect_emitted_event)] #[kani::stub(call_user_function, stub_call_user_function)] c10_id_mul_one_l_bool, "C10/fold_binary/identity/1*x/x=bool", (b: bool), { check_fold_binary(BinOp::Mul, Expr::Int(1), Expr::Bool(b)) });
 vpv_cell!(#[kani::stub(eval_filter_expr, stub_eval_filter_expr)] #[kani::stub(collect_emitted_event, stub_collect_emitted_event)] #[kani::stub(call_user_function, stub_call_user_function)] c10_id_mul_one_l_null, "C10/fold_binary/identity/1*x/x=null", (), { check_fold_binary(BinOp::Mul, Expr::Int(1), Expr::Null) });
-vpv_cell!(#[kani::stub(eval_filter_expr, stub_eval_filter_expr)] #[kani::stub(collect_emitted_event, stub_collect_emitted_event)] #[kani::stub(call_user_function, stub_call_user_function)] c10_id_mul_one_l_novalue, "C10/fold_binary/identity/1*x/x=novalue", (), { check_fold_binary(BinOp::Mul, Expr::Int(1), no_value()) });
 vpv_cell!(#[kani::stub(eval_filter_expr, stub_eval_filter_expr)] #[kani::stub(collect_emitted_event, stub_collect_emitted_event)] #[kani::stub(call_user_function, stub_call_user_function)] c10_id_add_zero_r_float, "C10/fold_binary/identity/x+0/x=float", (f: f64), { check_fold_binary(BinOp::Add, Expr::Float(f), Expr::Int(0)) });
 vpv_cell!(#[kani::stub(eval_filter_expr, stub_eval_filter_expr)] #[kani::stub(collect_emitted_event, stub_collect_emitted_event)] #[kani::stub(call_user_function, stub_call_user_function)] #[kani::unwind(6)] c10_id_add_zero_r_str, "C10/fold_binary/identity/x+0/x=str", (), { check_fold_binary(BinOp::Add, Expr::Str(String::from("ab")), Expr::Int(0)) });
 vpv_cell!(#[kani::stub(eval_filter_expr, stub_eval_filter_expr)] #[kani::stub(collect_emitted_event, stub_collect_emitted_event)] #[kani::stub(call_user_function, stub_call_user_function)] c10_id_add_zero_r_bool, "C10/fold_binary/identity/x+0/x=bool", (b: bool), { check_fold_binary(BinOp::Add, Expr::Bool(b), Expr::Int(0)) });
 vpv_cell!(#[kani::stub(eval_filter_expr, stub_eval_filter_expr)] #[kani::stub(collect_emitted_event, stub_collect_emitted_event)] #[kani::stub(call_user_function, stub_call_user_function)] c10_id_add_zero_r_null, "C10/fold_binary/identity/x+0/x=null", (), { check_fold_binary(BinOp::Add, Expr::Null, Expr::Int(0)) });
-vpv_cell!(#[kani::stub(eval_filter_expr, stub_eval_filter_expr)] #[kani::stub(collect_emitted_event, stub_collect_emitted_event)] #[kani::stub(call_user_function, stub_call_user_function)] c10_id_add_zero_r_novalue, "C10/fold_binary/identity/x+0/x=novalue", (), { check_fold_binary(BinOp::Add, no_value(), Expr::Int(0)) });
 vpv_cell!(#[kani::stub(eval_filter_expr, stub_eval_filter_expr)] #[kani::stub(collect_emitted_event, stub_collect_emitted_event)] #[kani::stub(call_user_function, stub_call_user_function)] c10_id_add_zero_l_float, "C10/fold_binary/identity/0+x/x=float", (f: f64), { check_fold_binary(BinOp::Add, Expr::Int(0), Expr::Float(f)) });
 vpv_cell!(#[kani::stub(eval_filter_expr, stub_eval_filter_expr)] #[kani::stub(collect_emitted_event, stub_collect_emitted_event)] #[kani::stub(call_user_function, stub_call_user_function)] #[kani::unwind(6)] c10_id_add_zero_l_str, "C10/fold_binary/identity/0+x/x=str", (), { check_fold_binary(BinOp::Add, Expr::Int(0), Expr::Str(String::from("ab"))) });
 vpv_cell!(#[kani::stub(eval_filter_expr, stub_eval_filter_expr)] #[kani::stub(collect_emitted_event, stub_collect_emitted_event)] #[kani::stub(call_user_function, stub_call_user_function)] c10_id_add_zero_l_bool, "C10/fold_binary/identity/0+x/x=bool", (b: bool), { check_fold_binary(BinOp::Add, Expr::Int(0), Expr::Bool(b)) });
 vpv_cell!(#[kani::stub(eval_filter_expr, stub_eval_filter_expr)] #[kani::stub(collect_emitted_event, stub_collect_emitted_event)] #[kani::stub(call_user_function, stub_call_user_function)] c10_id_add_zero_l_null, "C10/fold_binary/identity/0+x/x=null", (), { check_fold_binary(BinOp::Add, Expr::Int(0), Expr::Null) });
-vpv_cell!(#[kani::stub(eval_filter_expr, stub_eval_filter_expr)] #[kani::stub(collect_emitted_event, stub_collect_emitted_event)] #[kani::stub(call_user_function, stub_call_user_function)] c10_id_add_zero_l_novalue, "C10/fold_binary/identity/0+x/x=novalue", (), { check_fold_binary(BinOp::Add, Expr::Int(0), no_value()) });
 vpv_cell!(#[kani::stub(eval_filter_expr, stub_eval_filter_expr)] #[kani::stub(collect_emitted_event, stub_collect_emitted_event)] #[kani::stub(call_user_function, stub_call_user_function)] c10_id_sub_zero_r_float, "C10/fold_binary/identity/x-0/x=float", (f: f64), { check_fold_binary(BinOp::Sub, Expr::Float(f), Expr::Int(0)) });
 vpv_cell!(#[kani::stub(eval_filter_expr, stub_eval_filter_expr)] #[kani::stub(collect_emitted_event, stub_collect_emitted_event)] #[kani::stub(call_user_function, stub_call_user_function)] #[kani::unwind(6)] c10_id_sub_zero_r_str, "C10/fold_binary/identity/x-0/x=str", (), { check_fold_binary(BinOp::Sub, Expr::Str(String::from("ab")), Expr::Int(0)) });
 vpv_cell!(#[kani::stub(eval_filter_expr, stub_eval_filter_expr)] #[kani::stub(collect_emitted_event, stub_collect_emitted_event)] #[kani::stub(call_user_function, stub_call_user_function)] c10_id_sub_zero_r_bool, "C10/fold_binary/identity/x-0/x=bool", (b: bool), { check_fold_binary(BinOp::Sub, Expr::Bool(b), Expr::Int(0)) });
 vpv_cell!(#[kani::stub(eval_filter_expr, stub_eval_filter_expr)] #[kani::stub(collect_emitted_event, stub_collect_emitted_event)] #[kani::stub(call_user_function, stub_call_user_function)] c10_id_sub_zero_r_null, "C10/fold_binary/identity/x-0/x=null", (), { check_fold_binary(BinOp::Sub, Expr::Null, Expr::Int(0)) });
-vpv_cell!(#[kani::stub(eval_filter_expr, stub_eval_filter_expr)] #[kani::stub(collect_emitted_event, stub_collect_emitted_event)] #[kani::stub(call_user_function, stub_call_user_function)] c10_id_sub_zero_r_novalue, "C10/fold_binary/identity/x-0/x=novalue", (), { check_fold_binary(BinOp::Sub, no_value(), Expr::Int(0)) });
 vpv_cell!(#[kani::stub(eval_filter_expr, stub_eval_filter_expr)] #[kani::stub(collect_emitted_event, stub_collect_emitted_event)] #[kani::stub(call_user_function, stub_call_user_function)] c10_id_div_one_r_float, "C10/fold_binary/identity/x/1/x=float", (f: f64), { check_fold_binary(BinOp::Div, Expr::Float(f), Expr::Int(1)) });
 vpv_cell!(#[kani::stub(eval_filter_expr, stub_eval_filter_expr)] #[kani::stub(collect_emitted_event, stub_collect_emitted_event)] #[kani::stub(call_user_function, stub_call_user_function)] #[kani::unwind(6)] c10_id_div_one_r_str, "C10/fold_binary/identity/x/1/x=str", (), { check_fold_binary(BinOp::Div, Expr::Str(String::from("ab")), Expr::Int(1)) });
 vpv_cell!(#[kani::stub(eval_filter_expr, stub_eval_filter_expr)] #[kani::stub(collect_emitted_event, stub_collect_emitted_event)] #[kani::stub(call_user_function, stub_call_user_function)] c10_id_div_one_r_bool, "C10/fold_binary/identity/x/1/x=bool", (b: bool), { check_fold_binary(BinOp::Div, Expr::Bool(b), Expr::Int(1)) });
 vpv_cell!(#[kani::stub(eval_filter_expr, stub_eval_filter_expr)] #[kani::stub(collect_emitted_event, stub_collect_emitted_event)] #[kani::stub(call_user_function, stub_call_user_function)] c10_id_div_one_r_null, "C10/fold_binary/identity/x/1/x=null", (), { check_fold_binary(BinOp::Div, Expr::Null, Expr::Int(1)) });
-vpv_cell!(#[kani::stub(eval_filter_expr, stub_eval_filter_expr)] #[kani::stub(collect_emitted_event, stub_collect_emitted_event)] #[kani::stub(call_user_function, stub_call_user_function)] c10_id_div_one_r_novalue, "C10/fold_binary/identity/x/1/x=novalue", (), { check_fold_binary(BinOp::Div, no_value(), Expr::Int(1)) });
 vpv_cell!(#[kani::stub(eval_filter_expr, stub_eval_filter_expr)] #[kani::stub(collect_emitted_event, stub_collect_emitted_event)] #[kani::stub(call_user_function, stub_call_user_function)] c10_passthrough_lt, "C10/fold_binary/reconstruct/Lt/Int-Int", (a: i64, b: i64), { check_fold_binary(BinOp::Lt, Expr::Int(a), Expr::Int(b)) });
 vpv_cell!(#[kani::stub(eval_filter_expr, stub_eval_filter_expr)] #[kani::stub(collect_emitted_event, stub_collect_emitted_event)] #[kani::stub(call_user_function, stub_call_user_function)] c10_passthrough_eq, "C10/fold_binary/reconstruct/Eq/Int-Int", (a: i64, b: i64), { check_fold_binary(BinOp::Eq, Expr::Int(a), Expr::Int(b)) });
 vpv_cell!(#[kani::stub(eval_filter_expr, stub_eval_filter_expr)] #[kani::stub(collect_emitted_event, stub_collect_emitted_event)] #[kani::stub(call_user_function, stub_call_user_function)] c10_passthrough_and, "C10/fold_binary/reconstruct/And/Int-Int", (a: i64, b: i64), { check_fold_binary(BinOp::And, Expr::Int(a), Expr::Int(b)) });
 vpv_cell!(#[kani::stub(eval_filter_expr, stub_eval_filter_expr)] #[kani::stub(collect_emitted_event, stub_collect_emitted_event)] #[kani::stub(call_user_function, stub_call_user_function)] c10_neg_int, "C10/fold_unary/Neg/Int", (a: i64), { check_fold_unary(UnaryOp::Neg, Expr::Int(a)) });
 vpv_cell!(#[kani::stub(eval_filter_expr, stub_eval_filter_expr)] #[kani::stub(collect_emitted_event, stub_collect_emitted_event)] #[kani::stub(call_user_function, stub_call_user_function)] c10_neg_float, "C10/fold_unary/Neg/Float", (a: f64), { check_fold_unary(UnaryOp::Neg, Expr::Float(a)) });
 vpv_cell!(#[kani::stub(eval_filter_expr, stub_eval_filter_expr)] #[kani::stub(collect_emitted_event, stub_collect_emitted_event)] #[kani::stub(call_user_function, stub_call_user_function)] c10_not_bool, "C10/fold_unary/Not/Bool", (a: bool), { check_fold_unary(UnaryOp::Not, Expr::Bool(a)) });
-vpv_cell!(#[kani::stub(eval_filter_expr, stub_eval_filter_expr)] #[kani::stub(collect_emitted_event, stub_collect_emitted_event)] #[kani::stub(call_user_function, stub_call_user_function)] c10_expr_depth2_add_mul, "C10/fold_expr/depth2/(a+b)*c", (a: i64, b: i64, c: i64), { check_fold_expr(bin(BinOp::Mul, bin(BinOp::Add, Expr::Int(a), Expr::Int(b)), Expr::Int(c))) });
-vpv_cell!(#[kani::stub(eval_filter_expr, stub_eval_filter_expr)] #[kani::stub(collect_emitted_event, stub_collect_emitted_event)] #[kani::stub(call_user_function, stub_call_user_function)] c10_expr_depth2_neg_sub, "C10/fold_expr/depth2/-(a-b)", (a: i64, b: i64), { check_fold_expr(Expr::Unary { op: UnaryOp::Neg, expr: Box::new(bin(BinOp::Sub, Expr::Int(a), Expr::Int(b))) }) });
-vpv_cell!(#[kani::stub(eval_filter_expr, stub_eval_filter_expr)] #[kani::stub(collect_emitted_event, stub_collect_emitted_event)] #[kani::stub(call_user_function, stub_call_user_function)] c10_expr_if, "C10/fold_expr/If(cond, a*b, c)", (k: bool, a: i64, b: i64, c: f64), { check_fold_expr(Expr::If { cond: Box::new(Expr::Bool(k)), then_branch: Box::new(bin(BinOp::Mul, Expr::Int(a), Expr::Int(b))), else_branch: Box::new(Expr::Float(c)) }) });
-vpv_cell!(#[kani::stub(eval_filter_expr, stub_eval_filter_expr)] #[kani::stub(collect_emitted_event, stub_collect_emitted_event)] #[kani::stub(call_user_function, stub_call_user_function)] c10_shape_int_add_add_left, "C10/fold_expr/shape/(field:int Add a) Add b", (x: i64, a: i64, b: i64), { check_fold_expr(bin(BinOp::Add, bin(BinOp::Add, dyn_leaf(Expr::Int(x)), Expr::Int(a)), Expr::Int(b))) });
-vpv_cell!(#[kani::stub(eval_filter_expr, stub_eval_filter_expr)] #[kani::stub(collect_emitted_event, stub_collect_emitted_event)] #[kani::stub(call_user_function, stub_call_user_function)] c10_shape_int_add_add_right, "C10/fold_expr/shape/a Add (b Add field:int)", (x: i64, a: i64, b: i64), { check_fold_expr(bin(BinOp::Add, Expr::Int(a), bin(BinOp::Add, Expr::Int(b), dyn_leaf(Expr::Int(x))))) });
-vpv_cell!(#[kani::stub(eval_filter_expr, stub_eval_filter_expr)] #[kani::stub(collect_emitted_event, stub_collect_emitted_event)] #[kani::stub(call_user_function, stub_call_user_function)] c10_shape_int_mul_add_left, "C10/fold_expr/shape/(field:int Mul a) Add b", (x: i64, a: i64, b: i64), { check_fold_expr(bin(BinOp::Add, bin(BinOp::Mul, dyn_leaf(Expr::Int(x)), Expr::Int(a)), Expr::Int(b))) });
-vpv_cell!(#[kani::stub(eval_filter_expr, stub_eval_filter_expr)] #[kani::stub(collect_emitted_event, stub_collect_emitted_event)] #[kani::stub(call_user_function, stub_call_user_function)] c10_shape_float_add_add_left, "C10/fold_expr/shape/(field:float Add a) Add b", (x: f64, a: i64, b: i64), { check_fold_expr(bin(BinOp::Add, bin(BinOp::Add, dyn_leaf(Expr::Float(x)), Expr::Int(a)), Expr::Int(b))) });
-vpv_cell!(#[kani::stub(eval_filter_expr, stub_eval_filter_expr)] #[kani::stub(collect_emitted_event, stub_collect_emitted_event)] #[kani::stub(call_user_function, stub_call_user_function)] c10_shape_float_sub_add_left, "C10/fold_expr/shape/(field:float Sub a) Add b", (x: f64, a: i64, b: i64), { check_fold_expr(bin(BinOp::Add, bin(BinOp::Sub, dyn_leaf(Expr::Float(x)), Expr::Int(a)), Expr::Int(b))) });
-vpv_cell!(#[kani::stub(eval_filter_expr, stub_eval_filter_expr)] #[kani::stub(collect_emitted_event, stub_collect_emitted_event)] #[kani::stub(call_user_function, stub_call_user_function)] c10_shape_cmp_lt_add, "C10/fold_expr/shape/(field:int Add a) Lt b", (x: i64, a: i64, b: i64), { check_fold_expr(bin(BinOp::Lt, bin(BinOp::Add, dyn_leaf(Expr::Int(x)), Expr::Int(a)), Expr::Int(b))) });
-vpv_cell!(#[kani::stub(eval_filter_expr, stub_eval_filter_expr)] #[kani::stub(collect_emitted_event, stub_collect_emitted_event)] #[kani::stub(call_user_function, stub_call_user_function)] c10_shape_cmp_ge_sub, "C10/fold_expr/shape/(field:int Sub a) Ge b", (x: i64, a: i64, b: i64), { check_fold_expr(bin(BinOp::Ge, bin(BinOp::Sub, dyn_leaf(Expr::Int(x)), Expr::Int(a)), Expr::Int(b))) });
-vpv_cell!(#[kani::stub(eval_filter_expr, stub_eval_filter_expr)] #[kani::stub(collect_emitted_event, stub_collect_emitted_event)] #[kani::stub(call_user_function, stub_call_user_function)] c10_shape_cmp_eq_add, "C10/fold_expr/shape/(field:int Add a) Eq b", (x: i64, a: i64, b: i64), { check_fold_expr(bin(BinOp::Eq, bin(BinOp::Add, dyn_leaf(Expr::Int(x)), Expr::Int(a)), Expr::Int(b))) });
-vpv_cell!(#[kani::stub(eval_filter_expr, stub_eval_filter_expr)] #[kani::stub(collect_emitted_event, stub_collect_emitted_event)] #[kani::stub(call_user_function, stub_call_user_function)] c10_id_mul_zero_dynint, "C10/fold_binary/identity/mul_zero/x=field:int", (x: i64), { check_fold_binary(BinOp::Mul, dyn_leaf(Expr::Int(x)), Expr::Int(0)) });
-vpv_cell!(#[kani::stub(eval_filter_expr, stub_eval_filter_expr)] #[kani::stub(collect_emitted_event, stub_collect_emitted_event)] #[kani::stub(call_user_function, stub_call_user_function)] c10_id_mul_one_dynint, "C10/fold_binary/identity/mul_one/x=field:int", (x: i64), { check_fold_binary(BinOp::Mul, dyn_leaf(Expr::Int(x)), Expr::Int(1)) });
-vpv_cell!(#[kani::stub(eval_filter_expr, stub_eval_filter_expr)] #[kani::stub(collect_emitted_event, stub_collect_emitted_event)] #[kani::stub(call_user_function, stub_call_user_function)] c10_id_add_zero_dynint, "C10/fold_binary/identity/add_zero/x=field:int", (x: i64), { check_fold_binary(BinOp::Add, dyn_leaf(Expr::Int(x)), Expr::Int(0)) });
-vpv_cell!(#[kani::stub(eval_filter_expr, stub_eval_filter_expr)] #[kani::stub(collect_emitted_event, stub_collect_emitted_event)] #[kani::stub(call_user_function, stub_call_user_function)] c10_id_sub_zero_dynint, "C10/fold_binary/identity/sub_zero/x=field:int", (x: i64), { check_fold_binary(BinOp::Sub, dyn_leaf(Expr::Int(x)), Expr::Int(0)) });
-vpv_cell!(#[kani::stub(eval_filter_expr, stub_eval_filter_expr)] #[kani::stub(collect_emitted_event, stub_collect_emitted_event)] #[kani::stub(call_user_function, stub_call_user_function)] c10_id_div_one_dynint, "C10/fold_binary/identity/div_one/x=field:int", (x: i64), { check_fold_binary(BinOp::Div, dyn_leaf(Expr::Int(x)), Expr::Int(1)) });
-vpv_cell!(#[kani::stub(eval_filter_expr, stub_eval_filter_expr)] #[kani::stub(collect_emitted_event, stub_collect_emitted_event)] #[kani::stub(call_user_function, stub_call_user_function)] c10_id_zero_mul_dynint, "C10/fold_binary/identity/zero_mul/x=field:int", (x: i64), { check_fold_binary(BinOp::Mul, Expr::Int(0), dyn_leaf(Expr::Int(x))) });
-vpv_cell!(#[kani::stub(eval_filter_expr, stub_eval_filter_expr)] #[kani::stub(collect_emitted_event, stub_collect_emitted_event)] #[kani::stub(call_user_function, stub_call_user_function)] c10_id_one_mul_dynint, "C10/fold_binary/identity/one_mul/x=field:int", (x: i64), { check_fold_binary(BinOp::Mul, Expr::Int(1), dyn_leaf(Expr::Int(x))) });
-vpv_cell!(#[kani::stub(eval_filter_expr, stub_eval_filter_expr)] #[kani::stub(collect_emitted_event, stub_collect_emitted_event)] #[kani::stub(call_user_function, stub_call_user_function)] c10_id_zero_add_dynint, "C10/fold_binary/identity/zero_add/x=field:int", (x: i64), { check_fold_binary(BinOp::Add, Expr::Int(0), dyn_leaf(Expr::Int(x))) });
-vpv_replay_table!(c10_shape_int_add_add_left, c10_shape_int_add_add_right, c10_shape_int_mul_add_left, c10_shape_float_add_add_left, c10_shape_float_sub_add_left, c10_shape_cmp_lt_add, c10_shape_cmp_ge_sub, c10_shape_cmp_eq_add, c10_id_mul_zero_dynint, c10_id_mul_one_dynint, c10_id_add_zero_dynint, c10_id_sub_zero_dynint, c10_id_div_one_dynint, c10_id_zero_mul_dynint, c10_id_one_mul_dynint, c10_id_zero_add_dynint, c10_lit_add_int_int, c10_lit_sub_int_int, c10_lit_mul_int_int, c10_lit_div_int_int, c10_lit_mod_int_int, c10_lit_pow_int_int, c10_lit_add_float_float, c10_lit_sub_float_float, c10_lit_mul_float_float, c10_lit_div_float_float, c10_lit_mod_float_float, c10_lit_pow_float_float, c10_lit_add_int_float, c10_lit_add_float_int, c10_lit_sub_int_float, c10_lit_sub_float_int, c10_lit_mul_int_float, c10_lit_mul_float_int, c10_lit_div_int_float, c10_lit_div_float_int, c10_id_mul_zero_r_float, c10_id_mul_zero_r_str, c10_id_mul_zero_r_bool, c10_id_mul_zero_r_null, c10_id_mul_zero_r_novalue, c10_id_mul_zero_l_float, c10_id_mul_zero_l_str, c10_id_mul_zero_l_bool, c10_id_mul_zero_l_null, c10_id_mul_zero_l_novalue, c10_id_mul_one_r_float, c10_id_mul_one_r_str, c10_id_mul_one_r_bool, c10_id_mul_one_r_null, c10_id_mul_one_r_novalue, c10_id_mul_one_l_float, c10_id_mul_one_l_str, c10_id_mul_one_l_bool, c10_id_mul_one_l_null, c10_id_mul_one_l_novalue, c10_id_add_zero_r_float, c10_id_add_zero_r_str, c10_id_add_zero_r_bool, c10_id_add_zero_r_null, c10_id_add_zero_r_novalue, c10_id_add_zero_l_float, c10_id_add_zero_l_str, c10_id_add_zero_l_bool, c10_id_add_zero_l_null, c10_id_add_zero_l_novalue, c10_id_sub_zero_r_float, c10_id_sub_zero_r_str, c10_id_sub_zero_r_bool, c10_id_sub_zero_r_null, c10_id_sub_zero_r_novalue, c10_id_div_one_r_float, c10_id_div_one_r_str, c10_id_div_one_r_bool, c10_id_div_one_r_null, c10_id_div_one_r_novalue, c10_passthrough_lt, c10_passthrough_eq, c10_passthrough_and, c10_neg_int, c10_neg_float, c10_not_bool, c10_expr_depth2_add_mul, c10_expr_depth2_neg_sub, c10_expr_if);
+vpv_replay_table!(c10_lit_add_int_int, c10_lit_sub_int_int, c10_lit_mul_int_int, c10_lit_div_int_int, c10_lit_mod_int_int, c10_lit_pow_int_int, c10_lit_add_float_float, c10_lit_sub_float_float, c10_lit_mul_float_float, c10_lit_div_float_float, c10_lit_mod_float_float, c10_lit_pow_float_float, c10_lit_add_int_float, c10_lit_add_float_int, c10_lit_sub_int_float, c10_lit_sub_float_int, c10_lit_mul_int_float, c10_lit_mul_float_int, c10_lit_div_int_float, c10_lit_div_float_int, c10_id_mul_zero_r_float, c10_id_mul_zero_r_str, c10_id_mul_zero_r_bool, c10_id_mul_zero_r_null, c10_id_mul_zero_l_float, c10_id_mul_zero_l_str, c10_id_mul_zero_l_bool, c10_id_mul_zero_l_null, c10_id_mul_one_r_float, c10_id_mul_one_r_str, c10_id_mul_one_r_bool, c10_id_mul_one_r_null, c10_id_mul_one_l_float, c10_id_mul_one_l_str, c10_id_mul_one_l_bool, c10_id_mul_one_l_null, c10_id_add_zero_r_float, c10_id_add_zero_r_str, c10_id_add_zero_r_bool, c10_id_add_zero_r_null, c10_id_add_zero_l_float, c10_id_add_zero_l_str, c10_id_add_zero_l_bool, c10_id_add_zero_l_null, c10_id_sub_zero_r_float, c10_id_sub_zero_r_str, c10_id_sub_zero_r_bool, c10_id_sub_zero_r_null, c10_id_div_one_r_float, c10_id_div_one_r_str, c10_id_div_one_r_bool, c10_id_div_one_r_null, c10_passthrough_lt, c10_passthrough_eq, c10_passthrough_and, c10_neg_int, c10_neg_float, c10_not_bool);
